@@ -25,6 +25,22 @@ fn walk_mix<M: NodeMon>(ctx: &Ctx, rep: &mut Report, mon: &mut M, quick: u64, th
             rep.add("ev_scenario_fanout_nodes", nodes as u64);
         }
     });
+    // stored inputs of the coverage-guided `play` campaign, replayed with this property's monitor
+    if !is_miri {
+        let inputs = crate::fuzzplay::stored_corpus();
+        let total = inputs.len() as u64;
+        let chunk = 64u64;
+        let nchunks = (total + chunk - 1) / chunk;
+        ctx.cases(rep, "fuzz-corpus", (nchunks + ctx.nshards as u64 - 1) / ctx.nshards as u64, |gid, _rng, rep| {
+            if gid >= nchunks {
+                return;
+            }
+            for i in (gid * chunk)..((gid + 1) * chunk).min(total) {
+                crate::fuzzplay::run_with(mon, inputs[i as usize], rep, false);
+                rep.count("ev_fuzz_corpus_inputs");
+            }
+        });
+    }
     // W6: complete move trees from corpus roots
     if !is_miri && tree_depth > 0 {
         let roots = corpus.len() as u64;
